@@ -142,9 +142,12 @@ func (r *EventTicker[I, T]) addTickerToQueue(id T) (added bool) {
 	}
 
 	// schedule the next request and trigger the event
-	if scheduledTask := r.timedExecutor.ExecuteAfter(r.createReScheduler(id, 0), r.optsRetryInterval+time.Duration(crypto.Randomness.Float64()*float64(r.optsRetryJitter))); scheduledTask != nil {
-		queue.Set(id, scheduledTask)
+	scheduledTask := r.timedExecutor.ExecuteAfter(r.createReScheduler(id, 0), r.optsRetryInterval+time.Duration(crypto.Randomness.Float64()*float64(r.optsRetryJitter)))
+	if scheduledTask == nil {
+		// the executor was shut down: there is no ticker to count or to announce
+		return false
 	}
+	queue.Set(id, scheduledTask)
 
 	r.updateScheduledTickerCount(1)
 
